@@ -491,9 +491,14 @@ impl<E: Effect, R: CommandReceiver<E>, S: EventSender<E>> Worker<E, R, S> {
                 .executor
                 .get_process_info(*target)
                 .map(|info| info.status);
+            // A failed process is complete as well: its error belongs in this answer, not in a
+            // second message after a placeholder (a select could complete through a later
+            // source, such as a zero timeout, between the two).
             let is_completed = matches!(
                 target_status,
-                Some(ProcessStatus::Completed) | Some(ProcessStatus::Sleeping)
+                Some(ProcessStatus::Completed)
+                    | Some(ProcessStatus::Sleeping)
+                    | Some(ProcessStatus::Failed)
             );
 
             if is_completed {
@@ -544,8 +549,10 @@ impl<E: Effect, R: CommandReceiver<E>, S: EventSender<E>> Worker<E, R, S> {
     ) -> Result<(), EnvironmentError> {
         // Process each result and update awaiter
         for (awaited, result_opt) in results {
-            if let Some(result) = result_opt {
-                self.notify_result(awaiter, awaited, result)?;
+            match result_opt {
+                Some(result) => self.notify_result(awaiter, awaited, result)?,
+                // Not finished yet: the awaiter is registered with the target's worker
+                None => self.executor.notify_pending(awaiter, awaited),
             }
         }
 
